@@ -175,7 +175,7 @@ func genSignalID(rt *rapid.T) string {
 }
 
 func genSignalIDRaw(rt *rapid.T) string {
-	k := gen.Pick(rt, "sid-kind", 45, 20, 15, 10, 8, 2)
+	k := gen.Pick(rt, "sid-kind", 45, 20, 15, 10, 8, 4)
 	switch k {
 	case 0:
 		return gen.OneOf(rt, "sid-fixed", "CS:BTC-USD", "CS:ETH-USD", "CS:BAND-USD", "CS:USDT-USD", "A", "BTC")
@@ -189,7 +189,13 @@ func genSignalIDRaw(rt *rapid.T) string {
 		return clip(rapid.StringOfN(rapid.SampledFrom(runesWide), 1, 10, -1).Draw(rt, "sid-wide"), 32)
 	default:
 		// ids that begin with the padding byte; see the report (genuine ambiguity of the bytes32 encoding)
-		return "\x00" + gen.OneOf(rt, "sid-nul", "CS:BTC-USD", "A", "\x00B")
+		tail := gen.OneOf(rt, "sid-nul", "CS:BTC-USD", "A", "\x00B")
+		if gen.Chance(rt, "sid-nul-full", 1, 2) {
+			// the same, but zero bytes all the way to the full width of 32: no padding is added, yet the bytes32 equals
+			// that of the short id without them
+			return strings.Repeat("\x00", 32-len(tail)) + tail
+		}
+		return "\x00" + tail
 	}
 }
 
